@@ -661,3 +661,39 @@ func (p *Program) allocFor(fn *ssa.Function, obj types.Object) *ssa.Alloc {
 	}
 	return idx[obj.Pos()]
 }
+
+// callOrdinal: index (in source order) of this call among the calls to the same
+// callee inside its function.
+func (p *Program) callOrdinal(site ssa.Instruction, name string) int {
+	fn := site.Parent()
+	type ent struct {
+		in  ssa.Instruction
+		pos token.Pos
+	}
+	var list []ent
+	for _, b := range fn.Blocks {
+		for _, in := range b.Instrs {
+			ci, ok := in.(ssa.CallInstruction)
+			if !ok {
+				continue
+			}
+			c := ci.Common()
+			n := ""
+			if c.IsInvoke() {
+				n = ifaceMethodName(c.Value.Type(), c.Method)
+			} else if callee := c.StaticCallee(); callee != nil {
+				n = funcShortName(callee)
+			}
+			if n == name {
+				list = append(list, ent{in, in.Pos()})
+			}
+		}
+	}
+	sort.SliceStable(list, func(i, j int) bool { return list[i].pos < list[j].pos })
+	for i, e := range list {
+		if e.in == site {
+			return i
+		}
+	}
+	return -1
+}
